@@ -690,6 +690,7 @@ func c10Panics(c *Ctx, scope map[*ssa.Function]bool) {
 	}
 	type site struct{ fn, pos, kind string }
 	var sites []site
+	structural := map[string]string{} // fn|pos -> reason, for assertions exempt by what they assert
 	for fn := range scope {
 		if p.isGenerated(fn) {
 			continue
@@ -705,6 +706,20 @@ func c10Panics(c *Ctx, scope map[*ssa.Function]bool) {
 				sites = append(sites, site{shortName(declaredParent(fn)), p.InstrPos(in), "panic"})
 			case *ssa.TypeAssert:
 				if !x.CommaOk {
+					// exemptions by what is asserted, so that they follow the construct when it moves to another function:
+					// values the component stored itself under that type
+					k := NewKeyer(p, fn).Key(x.X)
+					for _, pat := range []struct{ sub, why string }{
+						{"(*container/list.List).Remove(", "assertion on a value the cache itself stored in its recency list"},
+						{"container/list.Element.Value", "assertion on a value the cache itself stored in its recency list"},
+						{"weightedrand", "assertion on a weightedrand choice item that the leader rotation stored as hotstuff.ID"},
+						{".PickSource(", "assertion on a weightedrand choice item that the leader rotation stored as hotstuff.ID"},
+						{"(*sync.Pool).Get(", "assertion on a value the pool itself stored (sync.Pool with a typed New)"},
+					} {
+						if strings.Contains(k, pat.sub) {
+							structural[shortName(declaredParent(fn))+"|"+p.InstrPos(in)] = pat.why
+						}
+					}
 					sites = append(sites, site{shortName(declaredParent(fn)), p.InstrPos(in), "unchecked type assertion to " + shorten(x.AssertedType.String())})
 				}
 			}
@@ -722,6 +737,10 @@ func c10Panics(c *Ctx, scope map[*ssa.Function]bool) {
 		}
 		seen[key+s.kind] = true
 		if reason, ok := exempt[key]; ok {
+			c.Exempt("C10.2", key+": "+s.kind, s.pos, reason)
+			continue
+		}
+		if reason, ok := structural[s.fn+"|"+s.pos]; ok && s.kind != "panic" {
 			c.Exempt("C10.2", key+": "+s.kind, s.pos, reason)
 			continue
 		}
